@@ -109,6 +109,11 @@ DIRECTED_PROGRAMS = [
     # a jump into a LATER routine whose target lies behind an op the compiler dropped (gap in the internal offsets before the target)
     ("dropped-jump-then-forward-cross-routine-jump", "def 0 {\n    first();\n    jump @next;\n    §next;\n    second();\n    if ($FLAG == 1) {\n        inside_if();\n    }\n    jump @shared;\n}\ndef 1 {\n    skipped();\n    §shared;\n    target();\n    tail();\n    return;\n}\n"),
     ("cross-routine-call-and-branch-with-gaps", "def 0 {\n    if (debug) {\n        a();\n    }\n    call @sub;\n    if (edit) {\n        jump @far;\n    }\n    b();\n    end;\n}\ndef 1 {\n    if (variation) {\n        c();\n    }\n    §far;\n    d();\n    §sub;\n    e();\n    return;\n}\n"),
+    # routines WITHOUT ops (a body holding only a label) between / before routines with jumps: positions are counted across all
+    # routines, an op-free routine contributes nothing (seeded change C15-m9: a per-routine counter that was stale there)
+    ("op-free-routine-in-the-middle", "def 0 {\n    if ($A == 1) {\n        foo(1);\n    }\n    bar(2);\n}\ndef 1 for_actor(0) {\n    §x;\n}\ndef 2 for_actor(ACTOR_X) {\n    if ($B == 2) {\n        foo(3);\n    } else {\n        foo(4);\n    }\n    end;\n}\n"),
+    ("op-free-routine-first", "def 0 {\n    §x;\n}\ndef 1 {\n    if ($B == 2) {\n        foo(3);\n    }\n    end;\n}\n"),
+    ("op-free-routines-twice", "def 0 {\n    a();\n    end;\n}\ndef 1 {\n    §x;\n}\ndef 2 {\n    §y;\n}\ndef 3 {\n    @l;\n    b();\n    jump @l;\n}\n"),
     # dungeon modes written as numbers: the decompile command prints 0..3 with the constants of its settings, each with its own
     ("dungeon-modes-as-numbers", "def 0 {\n    dungeon_mode(5) = 1;\n    dungeon_mode(6) = 0;\n    dungeon_mode(7) = 2;\n    dungeon_mode(8) = 3;\n    switch (dungeon_mode(3)) {\n        case 0:\n            a();\n            break;\n        case 1:\n            b();\n            break;\n        case 2:\n            c();\n            break;\n        case 3:\n            d();\n            break;\n    }\n    end;\n}\n"),
 ]
